@@ -133,8 +133,8 @@ func runSequential(r *vlib.Run, env *dbrig.Env, idx int, directed string) {
 
 	s := &seqRun{r: r, idx: idx, st: st, gen: dbrig.NewGen(env, rng, fmt.Sprintf("c%d", idx)), chain: &dbrig.Chain{}}
 
-	nblocks := 6 + rng.Intn(r.N(10, 20))
-	maxStates := []int{2, 6, r.N(12, 20)}[rng.Intn(3)]
+	nblocks := 6 + rng.Intn(r.N(10, 14))
+	maxStates := []int{2, 6, r.N(12, 16)}[rng.Intn(3)]
 	sufEvery := 1 + rng.Intn(5)
 
 	if directed != "" {
@@ -368,10 +368,10 @@ func runConcurrent(r *vlib.Run, env *dbrig.Env, idx int) {
 	var gate sync.RWMutex
 
 	nreaders := 4 + rng.Intn(5)
-	perStep := r.N(60, 200) // reads per reader and writer step: bounds the work, keeps readers inside the steps
+	perStep := r.N(40, 80) // reads per reader and writer step: bounds the work, keeps readers inside the steps
 
 	var stepNo atomic.Int64
-	nblocks := r.N(12, 30)
+	nblocks := r.N(10, 16)
 
 	var events []string
 	var evl sync.Mutex
@@ -663,8 +663,8 @@ func TestC19(t *testing.T) {
 
 	env := dbrig.NewEnv()
 
-	nseq := r.N(16, 120)
-	nconc := r.N(4, 16)
+	nseq := r.N(12, 60)
+	nconc := r.N(3, 8)
 
 	runDirectedChain := func(i int, name string) {
 		runSequential(r, env, 100000+i, name)
@@ -673,11 +673,18 @@ func TestC19(t *testing.T) {
 	runDirectedChain(0, "suffrage-lookups")
 	runDirectedChain(1, "stale-state-cache")
 
+	t0 := time.Now()
+
 	vlib.Parallel(nseq, 12, func(i int) {
 		r.WithWatchdog(10*time.Minute, fmt.Sprintf("sequential chain %d", i), func() { runSequential(r, env, i, "") })
 	})
 
+	r.Set("wall_sequential_phase_s", int(time.Since(t0).Seconds()))
+	t1 := time.Now()
+
 	vlib.Parallel(nconc, 4, func(i int) { runConcurrent(r, env, i) })
+
+	r.Set("wall_concurrent_phase_s", int(time.Since(t1).Seconds()))
 
 	r.Set("sequential_chains", nseq)
 	r.Set("concurrent_chains", nconc)
